@@ -165,7 +165,7 @@ func GenPresentation() *rapid.Generator[Presentation] {
 			p := Presentation{Deflate: true, Level: rapid.IntRange(-2, 9).Draw(t, "level")}
 			if rapid.IntRange(0, 3).Draw(t, "oddDeflate") == 0 {
 				// legal encodings no compressor emits: they begin like text (" <", "<", "$", "4", "D", "L", ",")
-				p.Style = rapid.SampledFrom([]string{"stored-ws", "dyn-prefix", "dyn-prefix", "stored-tail"}).Draw(t, "deflateStyle")
+				p.Style = rapid.SampledFrom([]string{"stored-ws", "dyn-prefix", "dyn-prefix", "stored-tail", "ratio", "ratio"}).Draw(t, "deflateStyle")
 			}
 			return p
 		}
